@@ -36,11 +36,14 @@ pub fn build(draws: &[u16], tier: Tier) -> Case {
     if s.chance(1, 6) {
         // the bound together with the exploration controls: a prefix of main runs with exploration
         // switched off (so the first scheduling decisions are recorded as non-exploring)
-        let k = 1 + s.pick(prog.threads[0].len().max(1));
-        let k = k.min(prog.threads[0].len());
-        prog.threads[0].insert(k, Op::Explore);
-        if s.chance(1, 2) {
-            prog.threads[0].insert(0, Op::StopExploring);
+        // (in main or in a spawned thread; at the start or in the middle of the thread)
+        let t = if s.chance(1, 3) && prog.threads.len() > 1 { 1 + s.pick(prog.threads.len() - 1) } else { 0 };
+        let len = prog.threads[t].len();
+        let k = (1 + s.pick(len.max(1))).min(len);
+        prog.threads[t].insert(k, Op::Explore);
+        if t != 0 || s.chance(2, 3) {
+            let from = if s.chance(1, 2) { 0 } else { s.pick(k) };
+            prog.threads[t].insert(from, Op::StopExploring);
         } else {
             explicit = true;
         }
